@@ -1,5 +1,6 @@
 import Summer.Generated.Mixing
 import Summer.Props.C01Rates
+import Summer.Proofs.Aggregate
 /-
 C05 — the mixing matrix of a model is what the SOURCE TEXT of `summer2/parameters/param_impl.py::finalize_parameters` says:
 the stratifications' matrices, collected in the order the stratifications were applied, combined left to right with the
@@ -37,6 +38,68 @@ theorem mixingMatrix_eq (m : Model α) (env : Env α) :
     simp only [Option.bind_eq_bind, Option.bind_some, Option.map_some, final_mixing_matrix_eq]
     cases mats <;> rfl
 
+/-- a successful `Option` fold is the pure fold of any step that agrees with it where it succeeds -/
+theorem foldl_of_foldlM {β γ : Type} (f : γ → β → Option γ) (g : γ → β → γ) (l : List β)
+    (hfg : ∀ a x r, x ∈ l → f a x = some r → g a x = r) (a r : γ) (h : l.foldlM f a = some r) : l.foldl g a = r := by
+  induction l generalizing a with
+  | nil => simpa using h
+  | cons x xs ih =>
+    simp only [List.foldlM_cons, Option.bind_eq_bind, Option.bind_eq_some_iff] at h
+    obtain ⟨a', ha', hrest⟩ := h
+    simp only [List.foldl_cons]
+    rw [hfg a x a' (by simp) ha']
+    exact ih (fun a x r hx => hfg a x r (by simp [hx])) a' hrest
+
+theorem compIdx_of_mem (comps : List Comp) (c : Comp) (h : c ∈ comps) : ∃ i, compIdx comps c = some i := by
+  obtain ⟨i, hi, _⟩ := Proofs.indexOf?_mem comps c h
+  exact ⟨i, hi⟩
+
+theorem inf_step (comps : List Comp) (adj : Adj α) (v : α) (acc : List α) (c : Comp) (i : Nat)
+    (hi : compIdx comps c = some i) :
+    (if Py.isOverwrite adj = true then acc.set ((compIdx comps c).getD 0) v
+      else acc.set ((compIdx comps c).getD 0) (v * acc.getD ((compIdx comps c).getD 0) 0))
+    = (match compIdx comps c with
+        | none => acc
+        | some i => match adj with
+          | .ovr _ => acc.set i v
+          | .mul _ => acc.set i (v * acc.getD i 0)) := by
+  rw [hi]
+  cases adj <;> simp [Py.isOverwrite]
+
+/-- `get_compartment_infectiousness`: when every adjustment parameter evaluates (which is when the hand model's
+`Run.compInfectiousness` is defined), the translated triple loop computes the same vector -/
+theorem get_compartment_infectiousness_eq (m : Model α) (params : List (String × α)) (ci : List α)
+    (h : compInfectiousness m params = some ci) :
+    Generated.Rates.get_compartment_infectiousness m (fun adj => (evalStatic params adj.expr).getD 0) = ci := by
+  unfold compInfectiousness at h
+  unfold Generated.Rates.get_compartment_infectiousness
+  refine foldl_of_foldlM _ _ m.strats ?_ _ ci h
+  intro acc s r _ hs
+  refine foldl_of_foldlM _ _ s.infAdj ?_ _ r hs
+  intro acc ia r _ hia
+  refine foldl_of_foldlM _ _ ia.2 ?_ _ r hia
+  intro acc sa r _ hsa
+  cases hadj : sa.2 with
+  | none => simpa [hadj] using hsa
+  | some adj =>
+    simp only [hadj, Option.bind_eq_bind, Option.bind_eq_some_iff, Option.pure_def, Option.some.injEq] at hsa
+    obtain ⟨v, hv, hr⟩ := hsa
+    simp only [hv, Option.getD_some]
+    subst hr
+    have hmem : ∀ c ∈ Build.getMatching m ia.1 [(s.name, sa.1)], c ∈ m.comps := by
+      intro c hc
+      simp only [Build.getMatching, List.mem_filter] at hc
+      exact hc.1.1
+    generalize Build.getMatching m ia.1 [(s.name, sa.1)] = targets at hmem
+    induction targets generalizing acc with
+    | nil => rfl
+    | cons c cs ih =>
+      simp only [List.foldl_cons]
+      obtain ⟨i, hi⟩ := compIdx_of_mem m.comps c (hmem c (by simp))
+      have hstep := inf_step m.comps adj v acc c i hi
+      rw [hstep]
+      exact ih _ (fun c' hc' => hmem c' (by simp [hc']))
+
 end
 
 /-! non-vacuity: the order matters (the Kronecker product does not commute), three matrices associate to the left -/
@@ -49,5 +112,6 @@ example : final_mixing_matrix (α := Rat) [] = [[1]] ∧ final_mixing_matrix (α
 #print axioms compute_final_matrix_eq
 #print axioms final_mixing_matrix_eq
 #print axioms mixingMatrix_eq
+#print axioms get_compartment_infectiousness_eq
 
 end Summer.Props.C05Source
